@@ -63,4 +63,13 @@ MUTANTS = [
     dict(name='c05-end-validation-dropped', file=I, old="        if end is not None and not isinstance(self._locate_period_in_span(end), int):\n            raise KeyError(end)\n\n        period_iter", new="        period_iter", checks=['C05']),
     dict(name='c05-offset-not-forwarded', file=I, old="                tol=tol,\n                offset=offset,\n                failures=failures,\n                errors=errors,\n                catch_first_error=catch_first_error,\n                **kwargs,\n            )\n\n        return labels, indexes, solved", new="                tol=tol,\n                failures=failures,\n                errors=errors,\n                catch_first_error=catch_first_error,\n                **kwargs,\n            )\n\n        return labels, indexes, solved", checks=['C05']),
     dict(name='c05-locate-valueerror-leaks', file=C, old="                    try:\n                        return index_function(period)\n                    except Exception as e:", new="                    try:\n                        return index_function(period)\n                    except KeyError as e:", checks=['C05', 'C10']),
+    # ---- C17 ----
+    dict(name='c17-trace-t-mutates-model', file=XM, old="        results = np.array([[self[x][t]] for x in names])", new="        results = np.array([[self[x][t]] for x in names])\n        self.iterations[t] = self.iterations[t] + 0 if label != 3 else self.iterations[t] + 1", checks=['C17']),
+    dict(name='c17-evaluate-kwargs-not-forwarded', file=XM, old="        super()._evaluate(\n            t, *args, trace=trace, reset=reset, iteration=iteration, **kwargs\n        )", new="        super()._evaluate(\n            t, *args, trace=trace, reset=reset, iteration=iteration\n        )", checks=['C17']),
+    dict(name='c17-pass-label-off-by-one', file=XM, old="            self.trace_t(t, iteration, *args, trace=trace, reset=reset, **kwargs)", new="            self.trace_t(t, iteration - 1, *args, trace=trace, reset=reset, **kwargs)", checks=['C17']),
+    dict(name='c17-if-trace-removed-from-after', file=XM, old="        # Store final results\n        if trace:", new="        # Store final results\n        if True:", checks=['C17']),
+    dict(name='c17-trace-before-evaluate', file=XM, old="        super()._evaluate(\n            t, *args, trace=trace, reset=reset, iteration=iteration, **kwargs\n        )\n\n        # Store results *after* each iteration\n        if trace:\n            self.trace_t(t, iteration, *args, trace=trace, reset=reset, **kwargs)", new="        if trace:\n            self.trace_t(t, iteration, *args, trace=trace, reset=reset, **kwargs)\n        super()._evaluate(\n            t, *args, trace=trace, reset=reset, iteration=iteration, **kwargs\n        )", checks=['C17']),
+    dict(name='c17-solve-t-drops-offset-when-traced', file=XM, old="        return super().solve_t(t, *args, trace=trace, reset=reset, **kwargs)", new="        if trace:\n            kwargs.pop('offset', None)\n        return super().solve_t(t, *args, trace=trace, reset=reset, **kwargs)", checks=['C17']),
+    dict(name='c17-trace-names-reordered', file=XM, old="            names = trace\n        else:", new="            names = sorted(trace)\n        else:", checks=['C17']),
+    dict(name='c17-start-snapshot-after-offset', file=XM, old="        if trace:\n            self.trace_t(t, 'start', *args, trace=trace, reset=reset, **kwargs)\n\n        return super().solve_t", new="        if trace and kwargs.get('tol', 1) < 1e-9:\n            self.trace_t(t, 'start', *args, trace=trace, reset=reset, **kwargs)\n        elif trace:\n            self.trace_t(t, 'start', *args, trace=trace, reset=True, **kwargs)\n\n        return super().solve_t", checks=['C17']),
 ]
